@@ -444,6 +444,15 @@ func (c *caseRun) run() {
 			o.Count("op:" + p.kind)
 			o.Count("result:" + p.result)
 			line, obs := p.line, p.result
+			if p.kind == "policy.recoverFund.neo" {
+				// used by the model only when the Treasury already holds NEO (the GAS reward minted to it triggers its
+				// onNEP17Payment with a Null sender; the amount is outside the model)
+				if p.result == "fault" {
+					line += " rx=no"
+				} else {
+					line += " rx=ok"
+				}
+			}
 			if isOutOfGas(&aers[0]) {
 				o.Count("result:out-of-gas")
 				if p.model {
